@@ -1156,7 +1156,9 @@ fn lower_expr_with_args(
                     ctx.push_error(Some(token.text_range()), "Invalid multiline string content");
                     return None;
                 };
-                parts.push(rest);
+                // the token ends before the last line's `\n`: in a file with CR LF line ends the
+                // last line still carries its `\r`, which `lines()` removed from the others
+                parts.push(rest.strip_suffix('\r').unwrap_or(rest));
             }
             let value = parts.join("\n");
             Some(ast::Expr::EString { value, astptr })
